@@ -14,7 +14,7 @@ CFG = dict(
                '(class 2) and is not proved for the executions outside that class. Schedule property, partial by nature: atomic sections = '
                'spans between sched_point hooks (lock-free or one lock scope); no interleavings inside a lock scope, no weak memory, no torn '
                'or reordered disk writes (C13), parking_lot/DashMap assumed correct; the disk is (batches, WAL) with Immediate durability.',
-    bin='c15', n_quick=600, n_thorough=8000, run_timeout=3000,
+    bin='c15', n_quick=600, n_thorough=3000, run_timeout=3000,
     corr_name='Model/ConcPersist.v vs StorageEngine/FilePersist write, flush, compact and recovery under the schedule controller',
     rule='5 hand-written configurations (insert vs delete of one tuple: enumerated, 70 schedules; append vs save; append vs the flush '
          'another append triggers with buffer_size 2; three writers on two relations; writers vs compaction: sampled) + random '
